@@ -129,7 +129,7 @@ func c04Setup(tb, ls bool) (*TemplateSet, *memLoader) {
 		"inc":  "<{{ s }}>\n{% if c %}i{% endif %}\n",
 		"incfail": "head-{{ s }}-{{ f(bad) }}-tail",
 		"lib":  "{% macro mm(p) export %}({{ p }}){% endmacro %}",
-		"base": "B{% block bb %}base{% endblock %}\n{% if c %}t{% endif %}\nE",
+		"base": "B{% block bb %}base{% endblock %}\n{% if c %}t{% endif %}\n{% block nb %}n{% endblock %}\nx\nE",
 	}}
 	set := NewSet("verif", ml)
 	set.Options.TrimBlocks, set.Options.LStripBlocks = tb, ls
@@ -187,6 +187,7 @@ func HarnessC04() {
 	verifEnvFixed(true)
 	noise.Execute(d2.ctx())
 	verifEnvFixed(false)
+	tpl.ExecuteBlocks(d2.ctx(), []string{"bb", "nb"}) // the other way of executing (parts of) a compiled template
 	o3, ok3 := c04Exec(tpl, d1)
 	verifAssert((errb == nil) == ok1 && (errb != nil || keptCopy == o1), "ExecuteBytes must give what Execute gives")
 	verifAssert(string(kept) == keptCopy, "the bytes returned by ExecuteBytes changed when the template was executed again")
